@@ -17,11 +17,14 @@ pub struct Fee {
     pub slashes: Vec<(u128, u128)>,
     pub scale: u128,
     pub users: Vec<&'static str>,
+    pub rewarded: bool,
+    /// additional bSei-only seeds (threshold, slash) where the rate lands exactly on the threshold
+    pub exact: Vec<(&'static str, (u128, u128))>,
 }
 
 impl Fee {
     pub fn base(label: &str) -> Fee {
-        Fee { label: label.into(), fees: vec!["0", "0.005", "0.5", "1"], thresholds: vec!["0", "0.95", "1"], slashes: vec![(1, 10), (1, 100)], scale: 1, users: vec![ALICE, BOB] }
+        Fee { label: label.into(), fees: vec!["0", "0.005", "0.5", "1"], thresholds: vec!["0", "0.95", "1"], slashes: vec![(1, 10), (1, 100)], scale: 1, users: vec![ALICE, BOB], rewarded: false, exact: vec![] }
     }
 }
 
@@ -39,12 +42,26 @@ impl Scenario for Fee {
                     let cfg = Cfg { peg_fee: f, threshold: t, ..Cfg::default() };
                     let mut c = deploy(&cfg);
                     let k = self.scale;
-                    run_prefix(
-                        &mut c,
-                        &[bond(ALICE, 1000 * k), bond_st(ALICE, 400 * k), bond(BOB, 300 * k), bond_st(BOB, 1000 * k), slash_bonded("val1", *n, *d), slash_bonded("val2", *n, *d)],
-                    );
-                    out.push((format!("fee={} thr={} slash={}/{}", f, t, n, d), c, ()));
+                    let mut prefix = vec![bond(ALICE, 1000 * k), bond_st(ALICE, 400 * k), bond(BOB, 300 * k), bond_st(BOB, 1000 * k)];
+                    if self.rewarded {
+                        // stSei rate above 1 before the slash (re-bonded rewards)
+                        prefix.push(accrue("val1", USEI, 2000 * k));
+                        prefix.push(update_index(UPDATER));
+                    }
+                    prefix.push(slash_bonded("val1", *n, *d));
+                    prefix.push(slash_bonded("val2", *n, *d));
+                    run_prefix(&mut c, &prefix);
+                    out.push((format!("fee={} thr={} slash={}/{}{}", f, t, n, d, if self.rewarded { " rewarded" } else { "" }), c, ()));
                 }
+            }
+        }
+        for (t, (n, d)) in &self.exact {
+            for f in &self.fees {
+                // a bSei pool spread evenly over both validators: the slash puts the rate exactly on the threshold
+                let cfg = Cfg { peg_fee: f, threshold: t, ..Cfg::default() };
+                let mut c = deploy(&cfg);
+                run_prefix(&mut c, &[bond(ALICE, 1000), bond(BOB, 1000), slash_bonded("val1", *n, *d), slash_bonded("val2", *n, *d), bond_st(BOB, 500)]);
+                out.push((format!("exact: fee={} thr={} slash={}/{}", f, t, n, d), c, ()));
             }
         }
         out
@@ -93,6 +110,12 @@ pub fn c05_step(po: &HubObs, a: &Action, out: &Outcome, qo: &HubObs, cx: &mut Cx
     let peg = po.params.peg_recovery_fee;
     let thr = po.params.er_threshold;
     let charged = brate < thr;
+    if brate == thr && thr < cosmwasm_std::Decimal::one() {
+        cx.count("c05_rate_exactly_on_threshold");
+    }
+    if srate > cosmwasm_std::Decimal::one() && charged {
+        cx.count("c05_fee_with_stsei_rate_above_one");
+    }
     let u = a.sender().to_string();
     let mut path = "";
     // (no-fee credit, observed credit, fee basis)
